@@ -145,6 +145,14 @@ def invoke(client, c, keys_as=list):
         return client.quit()
     if op == "raw":
         return client.raw_command(c["cmd"], c["tok"])
+    if op == "getitem":                 # the mapping protocol of Client / PooledClient
+        return client[c["k"]]
+    if op == "setitem":
+        client[c["k"]] = c["v"]
+        return None
+    if op == "delitem":
+        del client[c["k"]]
+        return None
     if op == "stats":
         return client.stats(*c.get("args", ()))
     if op == "cache_memlimit":
